@@ -446,7 +446,12 @@ func doCLI(c *core.Ctx, kind string, n int, rooted bool, seed int64, nb int, toF
 	rand.Seed(seed)
 	var intsM, lensM strings.Builder
 	for i := 0; i < nb; i++ {
-		ints, lens := replay(script(kind, n, rooted), 1.0/0.1)
+		sc := script(kind, n, rooted)
+		if kind == "star" && n >= 2 {
+			// cmd/startree.go redraws every branch length: n Exp values per tree
+			sc = make([]int, n)
+		}
+		ints, lens := replay(sc, 1.0/0.1)
 		intsM.WriteString(core.IntList(ints) + ";")
 		lensM.WriteString(core.RatList(lens) + ";")
 	}
@@ -947,6 +952,15 @@ func Run(c *core.Ctx) {
 					reqs = append(reqs, reqGen(kind, n, rooted, newSeed()))
 				}
 			}
+		}
+	}
+	if !c.Quick() {
+		// one big size per kind, so that "sizes upwards" is not capped at 300 in the evidence
+		for _, big := range []struct {
+			kind string
+			n    int
+		}{{"uniform", 1000}, {"yule", 1200}, {"caterpillar", 700}, {"balanced", 11}, {"star", 2000}} {
+			reqs = append(reqs, reqGen(big.kind, big.n, c.Seed%2 == 0, newSeed()))
 		}
 	}
 	// enumeration
